@@ -291,6 +291,46 @@ struct LedgerAllocator {
   }
 };
 
+/// std-like allocator with its own realloc-style `reallocate` (moves the bytes): only legal for trivially relocatable types,
+/// which is exactly what the containers must check before calling it
+template <class T>
+struct ReallocLedgerAllocator : LedgerAllocator<T> {
+  using value_type = T;
+  using size_type = size_t;
+  using pointer = T *;
+  ReallocLedgerAllocator() = default;
+  template <class U>
+  ReallocLedgerAllocator(const ReallocLedgerAllocator<U> &) {}
+  T *reallocate(T *p, size_t oldCapa, size_t newCapa, size_t nConstructed) {
+    ++G().ev.re;
+    if (G().tick()) throw std::bad_alloc();
+    if (nConstructed > oldCapa || nConstructed > newCapa) G().fault("badRealloc:live");
+    if (p != nullptr) {
+      auto it = G().blocks.find(p);
+      if (it == G().blocks.end()) {
+        G().fault("badRealloc:unknown");
+      } else {
+        if (it->second != oldCapa * sizeof(T)) G().fault("badRealloc:size");
+        G().blocks.erase(it);
+      }
+    } else if (oldCapa != 0) {
+      G().fault("badRealloc:null");
+    }
+    void *q = std::malloc(newCapa * sizeof(T) ? newCapa * sizeof(T) : 1);
+    if (!q) throw std::bad_alloc();
+    if (p) {
+      std::memcpy(q, static_cast<void *>(p), (oldCapa < newCapa ? oldCapa : newCapa) * sizeof(T));
+      std::free(p);
+    }
+    G().blocks[q] = newCapa * sizeof(T);
+    return static_cast<T *>(q);
+  }
+  template <class U>
+  struct rebind {
+    using other = ReallocLedgerAllocator<U>;
+  };
+};
+
 inline std::string faultsStr() {
   if (G().faults.empty()) return "-";
   std::string s;
